@@ -347,7 +347,11 @@ def isoParse (offU : Int → Int) (cs : List Char) : Option DT :=
       | some t =>
         -- UTC instant in ms (floor of the microsecond value is taken after the shift; offsets are whole seconds)
         let u := toLocalMs t - f.off * 1000
-        -- `.astimezone().replace(tzinfo=None)`; `OverflowError` outside years 1..9999
-        ofLocalMs (u + offU u * 1000)
+        -- `.astimezone()` first forms `self - utcoffset` (`OverflowError` outside years 1..9999) …
+        match ofLocalMs u with
+        | none => none
+        | some _ =>
+          -- … then shifts to the zone's local time, `.replace(tzinfo=None)`; `OverflowError` outside years 1..9999
+          ofLocalMs (u + offU u * 1000)
 
 end Datetime
